@@ -120,6 +120,33 @@ func runAll(cases []J, f func(J) J, serial bool) []J {
 	return out
 }
 
+// viaRecv hands a decoder a private copy of the bytes - the application's receive buffer - and overwrites that buffer once the decoder
+// has returned, as an application that reads the next message into it would: a decoded value must own everything it keeps.
+func viaRecv(b []byte, decode func([]byte) error) error {
+	if os.Getenv("VERIF_NORECV") != "" { // C19 observes sharing with the caller's own buffer step by step
+		return decode(b)
+	}
+	cp := append(make([]byte, 0, len(b)+16), b...)
+	err := decode(cp)
+	// the next message has the same shape and other small values: labels, algorithm ids, small content bytes change, the heads of
+	// strings, arrays and maps stay (so that what a decoded value wrongly shares with the buffer is still well-formed - and wrong)
+	// (one input in two also keeps the small unsigned integers - the labels - so that an algorithm id changes under its own label)
+	sum := 0
+	for _, x := range b {
+		sum += int(x)
+	}
+	lo := byte(0)
+	if sum%2 == 1 {
+		lo = 0x20
+	}
+	for i := range cp {
+		if cp[i] >= lo && cp[i] < 0x38 {
+			cp[i] ^= 0x01
+		}
+	}
+	return err
+}
+
 // ---- small helpers ---------------------------------------------------------
 
 func bytesOf(v any) []byte {
